@@ -194,6 +194,7 @@ func c14Exec(w c14World, idx []int, prefix []int, solo bool) (*sched.Run, []c14O
 			be.ServeHTTP(rw, rq)
 			if closers[id] {
 				_ = rq.Body.Close()
+				_ = rq.Body.Close() // (closing twice is legal; httputil.ReverseProxy over http.Transport does it)
 			}
 		})
 		tc, err := world.Build(w.cfg, handler)
